@@ -48,8 +48,11 @@ def observe(dm):
         out["response"] = (np.asarray(r.design_matrix, dtype=float), r.kind, None if r.levels is None else list(r.levels), r.name)
     if dm.common is not None:
         c = dm.common
-        out["common"] = (np.asarray(c.design_matrix, dtype=float), list(c.as_dataframe().columns),
-                         {k: (v.start, v.stop) for k, v in c.slices.items()})
+        view = c.as_dataframe()        # (the data-frame view is part of the result: its values and its row labels)
+        out["common"] = (np.asarray(c.design_matrix, dtype=float), list(view.columns),
+                         {k: (v.start, v.stop) for k, v in c.slices.items()}, [str(i) for i in view.index],
+                         np.asarray(view.to_numpy(dtype=float)).tolist() == np.asarray(c.design_matrix, dtype=float).reshape(len(view), -1).tolist()
+                         or bool(np.allclose(view.to_numpy(dtype=float), np.asarray(c.design_matrix, dtype=float).reshape(len(view), -1), equal_nan=True)))
     if dm.group is not None:
         g = dm.group
         out["group"] = (np.asarray(g.design_matrix, dtype=float), {k: (v.start, v.stop) for k, v in g.slices.items()},
